@@ -198,19 +198,27 @@ func baseLoad(L *LState) int {
 func baseLoadFile(L *LState) int {
 	var reader io.Reader
 	var chunkname string
-	var err error
 	if L.GetTop() < 1 {
 		reader = os.Stdin
 		chunkname = "<stdin>"
 	} else {
 		chunkname = L.CheckString(1)
-		reader, err = os.Open(chunkname)
+		file, err := os.Open(chunkname)
 		if err != nil {
 			L.Push(LNil)
 			L.Push(LString(fmt.Sprintf("can not open file: %v", chunkname)))
 			return 2
 		}
-		defer reader.(*os.File).Close()
+		file.Close()
+		// like dofile and LState.DoFile: a first line starting with '#' is skipped (luaL_loadfile)
+		fn, err := L.LoadFile(chunkname)
+		if err != nil {
+			L.Push(LNil)
+			L.Push(LString(err.Error()))
+			return 2
+		}
+		L.Push(fn)
+		return 1
 	}
 	return loadaux(L, reader, chunkname)
 }
